@@ -271,7 +271,10 @@ def main(v: Verdict) -> None:
     # the bookkeeping itself: the real generator's raise / flush / enter events stepped through TodoFlush's actions
     events = [todo_event(e) for e in r.todo]
     v.extra["bookkeeping_events_validated"] = len(events)
-    if len(events) < 1000:
+    if not events and "todo_error" in r.msg:
+        # the private helpers the recorder wraps do not exist under these names: the bookkeeping is not observable at event level
+        v.extra["bookkeeping_trace_unobservable"] = r.msg[-300:]
+    elif len(events) < 1000:
         v.machinery(f"only {len(events)} bookkeeping events were recorded {r.msg}")
     else:
         tb = judge_events(v, events)
